@@ -190,8 +190,11 @@ ApiSave(pkt, err) ==
 
 ApiSend(c, pkt) ==
   /\ c = obj.conn
-  /\ \/ /\ In("publish", "send") /\ pkt.t = "PUBLISH" /\ pkt.id = inside.id
-        /\ G("C09", "SaveBeforeFirstByte", pkt.id \in OutIds)
+  /\ \/ /\ (In("publish", "send") \/ In("publish", "p.save")) /\ pkt.t = "PUBLISH" /\ pkt.id = inside.id
+        \* recorded before the first byte: the save step of this call has happened (the record itself may already be gone again:
+        \* a publish saved while the processor reads the session for its resend phase is resent, acknowledged and deleted
+        \* before the call's own transmission - found by ClientMC)
+        /\ G("C09", "SaveBeforeFirstByte", inside.pc = "send")
         /\ G("C09", "PublishIntact", SameMsg(pkt.msg, inside.arg) /\ pkt.msg.q = inside.arg.q /\ pkt.msg.ret = inside.arg.ret /\ ~pkt.dup)
         /\ UNCHANGED <<futs, nfut>>
         /\ inside' = [inside EXCEPT !.pc = "done"]
